@@ -47,7 +47,23 @@ def action_term(f, n, nsyms, spec=None):
     ren = {}
     for c, r, s, rv in outs:
         for e in s.events:
-            if e[0] != "call" or e[1] not in f.bodies or not helper_opaque(e[1]):
+            if e[0] != "call":
+                continue
+            # a provided method of a crate-private trait called on a concrete type (`IntToken::parse(s)` with
+            # `trait Literal { const LEAD: usize; fn parse(..) { .. Self::LEAD .. } }`) is one helper per implementing type
+            mt = re.fullmatch(r"<(.+) as ([\w:]+)>::(\w+)", e[1])
+            if mt and (mt.group(2) + "::" + mt.group(3)) in f.bodies and helper_opaque(mt.group(2) + "::" + mt.group(3)):
+                shown = [show(norm(a)) for a in e[2]]
+                text = [i for i, a in enumerate(shown) if re.fullmatch(r"\$\d+\.1", a)]
+                if len(text) == 1 and len(shown) == 1:
+                    sc = short_callee(e[1])
+                    mangled = re.sub(r"\W+", "_", sc)
+                    for bang in ("", "!", "!err"):
+                        ren["%s%s(%s)" % (sc, bang, ", ".join(shown))] = "helpers::%s%s(%s)" % (mangled, bang, shown[0])
+                    if spec is not None:
+                        spec[mangled] = (mt.group(2) + "::" + mt.group(3), (None,), {"Self": mt.group(1)})
+                continue
+            if e[1] not in f.bodies or not helper_opaque(e[1]):
                 continue
             shown = [show(norm(a)) for a in e[2]]
             text = [i for i, a in enumerate(shown) if re.fullmatch(r"\$\d+\.1", a)]
@@ -81,8 +97,10 @@ def helper_summary(f, g, name, opaque=None):
             return None, None
         outs, it = evalsum.summarize_fn(f, path, arg_names=["value"], opaque=opaque)
         return path, outs
-    path, template = sp
+    path, template = sp[0], sp[1]
     it = Interp(f, opaque=opaque)
+    if len(sp) > 2 and sp[2]:
+        it.tsub = dict(sp[2])
     st = State()
     def thaw(v):
         # a resolved reference (read-only snapshot) becomes a live reference to a fresh cell again
